@@ -8,6 +8,7 @@
    K = 2^16 in the finding classes; the conditional theorems are stated for every K. *)
 From Coq Require Import List ZArith NArith Bool.
 From GQ Require Import Model.RcvdJournal Model.SentJournal Model.C04Cid Model.C04Handlers Proofs.C04Cid Proofs.C04.
+From GQ Require Lib.Base Model.RemoteCid.
 From GQ Require Lib.Wire Lib.FrameTypes Model.Varint Model.Frames Model.StreamCtl Model.Sid.
 Import ListNotations.
 Local Open Scope Z_scope.
@@ -104,36 +105,59 @@ Theorem c04_pn_cells : forall j now pn el pto j',
 Proof. exact p_c04_pn_cells. Qed.
 
 (* ---------------------------------------------------------------- NEW_CONNECTION_ID (F10) *)
-Theorem c04_new_cid_cost_refuted : forall c c', 0 <= c -> 0 <= c' ->
-  exists seq rpt, 0 <= rpt <= seq /\ seq - rpt <= rc_limit (rc_init 2) /\
-    c * (54 + rc_size (rc_init 2)) + c' < rc_new_cost (rc_init 2) seq rpt /\
-    c * (54 + rc_size (rc_init 2)) + c' < rc_new_frames (rc_init 2) seq rpt.
+(* The handler is the shared model of the repaired code, [rc_recv] = Model.RemoteCid.recv_new_cid
+   no_pre post_count (C14): insert, retire_prior_to, arrange_idle_cid, THEN count the active IDs.
+   Nothing bounds the sequence number before `IndexDeque::insert` gap-fills up to it. *)
+
+(* REFUTED, and for frames the count-based limit ACCEPTS (one active ID is left): cells allocated,
+   RETIRE_CONNECTION_ID frames queued and work all exceed any linear function of the 54 frame bytes
+   and the 3 cells of state *)
+Theorem c04_new_cid_cost_refuted : forall c c' : N, exists seq rpt : N,
+  (rpt <= seq)%N /\
+  (let '(s', fr, res) := rc_recv (rc_init 2) seq rpt in
+   res = RemoteCid.NAccepted /\ (RemoteCid.active s' <= 1)%N /\
+   (c * (54 + rc_size (rc_init 2)) + c' < Base.lenN fr)%N) /\
+  (c * (54 + rc_size (rc_init 2)) + c' < rc_new_cells (rc_init 2) seq)%N /\
+  (c * (54 + rc_size (rc_init 2)) + c' < rc_new_cost (rc_init 2) seq rpt)%N.
 Proof. exact p_c04_new_cid_cost_refuted. Qed.
 
+(* what one frame CAN cause, exactly: [rc_gap] = seq - cid_deque.largest() default cells … *)
+Theorem c04_new_cid_cells : forall s seq rpt s' fr res,
+  rc_discards s seq = false -> rc_recv s seq rpt = (s', fr, res) ->
+  (Base.lenN (RemoteCid.r_cids s') + rc_drained s seq rpt =
+     Base.lenN (RemoteCid.r_cids s) + rc_new_cells s seq + (if rc_end s <=? seq then 1 else 0))%N /\
+  RemoteCid.r_coff s' = rc_coff_after s seq rpt.
+Proof. exact p_c04_new_cid_cells. Qed.
+
+(* … and [rc_gap_frames] = retire_prior_to - ready_cells.largest() RETIRE_CONNECTION_ID frames (one per
+   sequence NUMBER no path ever used), plus at most one per connection ID the paths' cells held *)
+Theorem c04_new_cid_frames : forall s seq rpt s' fr res,
+  rc_discards s seq = false -> rc_recv s seq rpt = (s', fr, res) ->
+  (rc_gap_frames s rpt <= Base.lenN fr)%N /\
+  (Base.lenN fr <= rc_gap_frames s rpt + allocs (RemoteCid.r_cells s) + Base.lenN (RemoteCid.r_pending s)
+                   + Base.lenN (RemoteCid.r_ready s))%N.
+Proof. exact p_c04_new_cid_frames. Qed.
+
+(* the bound that does hold: linear in the two jumps and in the state *)
 Theorem c04_new_cid_value_bound : forall s seq rpt,
-  rc_wf s -> 0 <= rpt <= seq ->
-  rc_new_cost s seq rpt <=
-    Z.max 0 (seq - (rc_off s + rc_len s)) + Z.max 0 (rpt - rc_off s) + Z.max 0 (rpt - rc_roff s)
-    + 2 * rc_nready s + zlen (rc_pending s) + 5.
+  (rc_new_cost s seq rpt <= 2 * rc_gap s seq + rc_gap_frames s rpt + 4 * rc_size s + 6)%N.
 Proof. exact p_c04_new_cid_value_bound. Qed.
 
+Theorem c04_new_cid_cost_lower : forall s seq rpt, rc_discards s seq = false ->
+  (rc_gap s seq + rc_gap_frames s rpt <= rc_new_cost s seq rpt)%N.
+Proof. exact p_c04_new_cid_cost_lower. Qed.
+
+(* outside the class of F10 (sequence number more than K beyond the highest seen, or retire_prior_to
+   more than K beyond the highest number a path used) *)
 Theorem c04_new_cid_cost : forall K s seq rpt,
-  rc_wf s -> 0 <= rpt <= seq -> 0 <= K ->
-  seq - (rc_off s + rc_len s) <= K -> rpt - rc_off s <= K -> rpt - rc_roff s <= K ->
-  rc_new_cost s seq rpt <= 3 * K + 2 * rc_size s + 5.
+  (seq - rc_end s <= K)%N -> (rpt - rc_applied s <= K)%N ->
+  (rc_new_cost s seq rpt <= 3 * K + 4 * rc_size s + 6)%N.
 Proof. exact p_c04_new_cid_cost. Qed.
 
 Theorem c04_retire_prior_cost : forall K s seq rpt,
-  rc_wf s -> rc_off s <= seq -> 0 <= K -> rpt - rc_off s <= K -> rpt - rc_roff s <= K ->
-  rc_retire_cost s seq rpt <= 2 * K + rc_nready s + 1.
+  (rpt - RemoteCid.r_coff s <= K)%N -> (rpt - rc_applied s <= K)%N ->
+  (rc_retire_cost s seq rpt <= 2 * K + Base.lenN (RemoteCid.r_ready s) + 1)%N.
 Proof. exact p_c04_retire_prior_cost. Qed.
-
-Theorem c04_new_cid_cells : forall s seq rpt,
-  rc_wf s -> 0 <= rpt <= seq -> rc_over_limit s seq rpt = false -> rc_off s <= seq ->
-  rc_len (rc_new_apply s seq rpt) = rc_len s + rc_new_cells s seq rpt + (if rc_len s + rc_off s <=? seq then 1 else 0)
-                                    - rc_drained s seq rpt /\
-  rc_off (rc_new_apply s seq rpt) = rc_off_after s seq rpt.
-Proof. exact p_c04_new_cid_cells. Qed.
 
 (* ---------------------------------------------------------------- active_connection_id_limit (F11) *)
 Theorem c04_set_limit_cost_refuted : forall c c', 0 <= c -> 0 <= c' ->
@@ -170,22 +194,29 @@ Theorem c04_limits :
      (Sid.pget (Sid.r_max (StreamCtl.d_r d)) (Sid.sid_dir sid) < Sid.sid_idx sid)%N ->
      hd 0 (snd (StreamCtl.ds_step StreamCtl.fixed d (StreamCtl.OStream sid off len fin))) = E_STREAM_LIMIT /\
      StreamCtl.d_closed (fst (StreamCtl.ds_step StreamCtl.fixed d (StreamCtl.OStream sid off len fin))) = true) /\
-  (* RETIRE_CONNECTION_ID of a sequence number never issued: an error, one unit, nothing changes *)
+  (* RETIRE_CONNECTION_ID of a sequence number never issued: PROTOCOL_VIOLATION (RFC 9000 19.16), one
+     unit, nothing changes *)
   (forall s seq, lc_next s <= seq ->
-     lc_retire_err false s seq = E_CONNECTION_ID_LIMIT /\ lc_retire_cost s seq = 1 /\ lc_retire_apply s seq = s) /\
-  (* NEW_CONNECTION_ID with more than active_connection_id_limit IDs between retire_prior_to and seq *)
-  (forall s seq rpt, rc_limit s < seq - rpt ->
-     rc_new_err s seq rpt = E_CONNECTION_ID_LIMIT /\ rc_new_cost s seq rpt = 1 /\
-     rc_new_frames s seq rpt = 0 /\ rc_new_apply s seq rpt = s) /\
+     lc_retire_err true s seq = E_PROTOCOL_VIOLATION /\ lc_retire_cost s seq = 1 /\ lc_retire_apply s seq = s) /\
+  (* NEW_CONNECTION_ID: CONNECTION_ID_LIMIT_ERROR exactly when more than active_connection_id_limit
+     connection IDs are active once the frame is processed (RFC 9000 5.1.1); a sequence number below
+     the retired prefix is dropped at the first test *)
+  (forall s seq rpt s' fr res, rc_discards s seq = false -> rc_recv s seq rpt = (s', fr, res) ->
+     ((RemoteCid.r_limit s < RemoteCid.active s')%N ->
+        res = RemoteCid.NErrLimit /\ rc_res_err res = E_CONNECTION_ID_LIMIT) /\
+     ((RemoteCid.active s' <= RemoteCid.r_limit s)%N -> res = RemoteCid.NAccepted /\ rc_res_err res = E_NONE)) /\
+  (forall s seq rpt, (seq < RemoteCid.r_coff s)%N ->
+     rc_recv s seq rpt = (s, [], RemoteCid.NDiscarded) /\ rc_new_cost s seq rpt = 1%N /\ rc_new_drv s seq rpt = 0%N) /\
   (* active_connection_id_limit below 2 *)
   (forall s n, n < 2 -> lc_set_err s n = E_TRANSPORT_PARAMETER /\ lc_set_cost s n = 1 /\ lc_set_apply s n = s).
 Proof.
   split; [exact p_c04_max_streams_limit|]. split; [exact p_c04_stream_limit|].
-  split; [intros s seq H; destruct (p_c04_retire_unissued s seq H) as (_ & A & _ & B & C); auto|].
-  split; [exact p_c04_new_cid_limit|exact p_c04_set_limit_small].
+  split; [intros s seq H; destruct (p_c04_retire_unissued s seq H) as (A & _ & _ & B & C); auto|].
+  split; [exact p_c04_new_cid_limit|]. split; [exact p_c04_new_cid_discarded|exact p_c04_set_limit_small].
 Qed.
 
-(* F55: the KIND of the RETIRE error is not the one RFC 9000 19.16 prescribes *)
+(* F55 (fixed): the code before `fix: RETIRE_CONNECTION_ID for a sequence number never issued is a
+   PROTOCOL_VIOLATION` answered with a KIND other than the one RFC 9000 19.16 prescribes *)
 Theorem c04_retire_kind_refuted :
   exists s seq, lc_next s <= seq /\ lc_retire_err false s seq <> E_PROTOCOL_VIOLATION.
 Proof. exact p_c04_retire_kind_refuted. Qed.
@@ -212,10 +243,20 @@ Example c04_f9_witness :
   decode_pn rj01 (U32 (2^31 - 1)) = DpnOk (2^31 - 1) /\ pn_cells rj01 (2^31 - 1) = 2^31 - 2.
 Proof. exact p_c04_f9_witness. Qed.
 
+(* limit 2, after NEW_CONNECTION_ID(1, 0):
+   - (seq 3000, rpt 3000): accepted, 2998 cells appended, 2999 + 1 RETIRE_CONNECTION_ID frames, 1 active ID;
+   - (seq 3000, rpt 0): CONNECTION_ID_LIMIT_ERROR (3 active IDs), but only after 2998 cells were
+     appended and the limit check walked all 3001 of them;
+   - (seq 2^62-1, rpt 2^62-1): 2^62-3 cells and 2^62-2 frames are asked for (arithmetic only) *)
 Example c04_f10_witness :
-  rc_new_err (rc_new_apply (rc_init 2) 1 0) 1000000 1000000 = 0 /\
-  rc_new_frames (rc_new_apply (rc_init 2) 1 0) 1000000 1000000 = 1000000 /\
-  rc_new_cells (rc_new_apply (rc_init 2) 1 0) 1000000 1000000 = 999998.
+  let s1 := fst (fst (rc_recv (rc_init 2) 1 0)) in
+  (let '(s', fr, res) := rc_recv s1 3000 3000 in
+   res = RemoteCid.NAccepted /\ RemoteCid.active s' = 1%N /\ Base.lenN fr = 3000%N /\
+   rc_new_cells s1 3000 = 2998%N /\ rc_gap_frames s1 3000 = 2999%N) /\
+  (let '(s', fr, res) := rc_recv s1 3000 0 in
+   res = RemoteCid.NErrLimit /\ RemoteCid.active s' = 3%N /\ Base.lenN (RemoteCid.r_cids s') = 3001%N /\
+   (5998 < rc_new_cost s1 3000 0)%N) /\
+  rc_new_drv s1 (2^62 - 1) (2^62 - 1) = (2^62 - 3 + (2^62 - 2))%N.
 Proof. vm_compute. repeat split; reflexivity. Qed.
 
 Example c04_f11_witness : lc_set_err lc_init 200000 = 0 /\ lc_set_frames lc_init 200000 = 199998.
@@ -236,10 +277,12 @@ Print Assumptions c04_pn_jump_value_bound.
 Print Assumptions c04_pn_jump_cost.
 Print Assumptions c04_pn_cells.
 Print Assumptions c04_new_cid_cost_refuted.
+Print Assumptions c04_new_cid_cells.
+Print Assumptions c04_new_cid_frames.
 Print Assumptions c04_new_cid_value_bound.
+Print Assumptions c04_new_cid_cost_lower.
 Print Assumptions c04_new_cid_cost.
 Print Assumptions c04_retire_prior_cost.
-Print Assumptions c04_new_cid_cells.
 Print Assumptions c04_set_limit_cost_refuted.
 Print Assumptions c04_set_limit_value_bound.
 Print Assumptions c04_set_limit_cost.
